@@ -104,64 +104,7 @@ def check(ck):
     ck.floor("C13.1", 2)
 
     # ---- C13.2 copy is complete and unshared ----------------------------------------------------
-    finit = prog.func("config", "Config.__init__")
-    fcopy = prog.func("config", "Config.copy")
-    gc = cfg_of(fcopy)
-    # field -> constructor parameter (the parameter whose value reaches self.<field>)
-    ginit = cfg_of(finit)
-    field_param = {}
-    for n in ginit.live_nodes():
-        if n.kind == "stmt" and isinstance(n.ast, ast.Assign):
-            for tg in n.ast.targets:
-                if isinstance(tg, ast.Attribute) and dump(tg.value) == "self":
-                    t = prov.origin(ginit, n, n.ast.value)
-                    ps = [x[1] for x in prov.subterms(t) if x[0] == "param" and x[1] != "self"]
-                    if ps:
-                        field_param[tg.attr] = ps[0]
-    ctor = [(n, c) for (n, c) in q.call_sites(prog, fcopy, lambda r, c: r == "class:config.Config")]
-    if len(ctor) != 1:
-        raise AnalysisError("anchor vanished: Config(...) call in Config.copy (found %d)" % len(ctor))
-    cn, cc = ctor[0]
-    init_params = [p for p in finit.params if p != "self"]
-    carried = {}
-    for i, a in enumerate(cc.args):
-        if i < len(init_params):
-            carried[init_params[i]] = prov.origin(gc, cn, a)
-    for k in cc.keywords:
-        carried[k.arg] = prov.origin(gc, cn, k.value)
-    new_var = cn.ast.targets[0].id if isinstance(cn.ast, ast.Assign) and isinstance(cn.ast.targets[0], ast.Name) else None
-    rebound = {}
-    for n in gc.live_nodes():
-        if n.kind == "stmt" and isinstance(n.ast, ast.Assign):
-            for tg in n.ast.targets:
-                if isinstance(tg, ast.Attribute) and isinstance(tg.value, ast.Name) and tg.value.id == new_var:
-                    rebound[tg.attr] = (n, prov.origin(gc, n, n.ast.value))
-    for f in sorted(fields):
-        p = field_param.get(f)
-        src = ("attr", ("param", "self"), f)
-        via_ctor = p is not None and carried.get(p) == src
-        via_store = f in rebound and prov.contains(rebound[f][1], lambda x: x == src)
-        ck.require(via_ctor or via_store, "C13.2", "config.Config.copy: field %s" % f,
-                   "carried from self.%s" % f,
-                   "Config.copy() does not carry the field `%s` of the original (the copy silently falls back to the "
-                   "default)" % f, q.loc(fcopy, cn))
-        if f in ("classes", "serialize_handlers"):
-            shared = False
-            why = ""
-            if f in rebound:
-                t = rebound[f][1]
-                shared = (t == src)
-                why = prov.show(t)
-                copying = t[0] == "call" and ((t[1][0] == "attr" and t[1][2] in ("copy",)) or
-                                              (t[1][0] == "global" and t[1][1] in ("dict", "LocalClasses")))
-                shared = shared or not copying
-            elif via_ctor:
-                # handed to the constructor: __init__ stores `serialize_handlers or {}` = the same object
-                shared = True
-                why = "passed to Config(...) which stores the object itself"
-            ck.require(not shared, "C13.2", "config.Config.copy: container %s" % f, "rebound to a copying call",
-                       "the copy shares the mutable container `%s` with the original (%s): modifying one Config changes the other"
-                       % (f, why), q.loc(fcopy, rebound[f][0] if f in rebound else cn))
+    common.check_config_copy(ck, "C13.2")
     ck.floor("C13.2", 10)
 
     # ---- C13.3 no serving-time state ----------------------------------------------------------------
